@@ -245,27 +245,47 @@ def record_put():
     """performs a real solve+put of R0 with io.open proxied; returns (path, final bytes, write log)"""
     from bldfm.cache import GreensFunctionCache
 
-    log = []
+    logs = {}
     real_open = io.open
+    real_replace, real_rename = os.replace, os.rename
+    cdir = os.path.join(os.getcwd(), "crash_cache")
 
     def popen(file, mode="r", *a, **k):
         f = real_open(file, mode, *a, **k)
-        if ("w" in mode or "+" in mode or "a" in mode) and str(file).endswith(".npz"):
-            return _Proxy(f, log)
+        # every file written inside the cache directory, whatever it is called (an entry may be written under a scratch name
+        # and moved into place)
+        if ("w" in mode or "+" in mode or "a" in mode) and isinstance(file, (str, os.PathLike)) and os.path.realpath(os.fspath(file)).startswith(os.path.realpath(cdir) + os.sep):
+            return _Proxy(f, logs.setdefault(os.path.realpath(os.fspath(file)), []))
         return f
 
-    cdir = os.path.join(os.getcwd(), "crash_cache")
+    def pmove(real):
+        def mv(src, dst, *a, **k):
+            r = real(src, dst, *a, **k)
+            sp, dp = os.path.realpath(os.fspath(src)), os.path.realpath(os.fspath(dst))
+            if sp in logs:
+                logs[dp] = logs.pop(sp)
+            return r
+        return mv
+
     shutil.rmtree(cdir, ignore_errors=True)
+    import builtins
+
+    real_builtin_open = builtins.open
     io.open = popen
+    builtins.open = popen
+    os.replace, os.rename = pmove(real_replace), pmove(real_rename)
     try:
         sl.solver()(cache=GreensFunctionCache(cdir), **request("R0"))
     finally:
         io.open = real_open
+        builtins.open = real_builtin_open
+        os.replace, os.rename = real_replace, real_rename
     files = [f for f in os.listdir(cdir) if f.endswith(".npz")]
     if len(files) != 1:
         raise core.HarnessError("expected exactly one cache entry after one put, found %r" % files)
     path = os.path.join(cdir, files[0])
     data = open(path, "rb").read()
+    log = logs.get(os.path.realpath(path), [])
     if not log:
         raise core.HarnessError("the io.open seam saw no writes - the cache no longer writes its entry through io.open/zipfile")
     # the log must reproduce the file (otherwise prefixes of it are not faithful crash images)
@@ -387,6 +407,69 @@ def case_crash(case):
             "obs": {"images": len(case["args"]), "images_differing_from_intact": differ, "served_without_solving": served_hits, "entry_bytes": len(data), "write_ops": len(log)}}
 
 
+def case_concurrent_writers(case):
+    """two (thorough: also three) worker processes, forked from this one the way the pool forks its workers, each solving
+    one footprint request through its OWN cache object on the SAME directory - every interleaving of their file operations
+    with at most `bound` preemptions (vf/procsched.py).  After each execution the directory is what a later run finds: every
+    request of the pair, asked again through a fresh cache object, must be answered exactly as without a cache (served from
+    an intact entry or solved again); the workers' own answers must be right too."""
+    import hashlib
+
+    from bldfm.cache import GreensFunctionCache
+    from vf import procsched
+
+    names = case["requests"]
+    S = sl.solver()
+    want = {n_: expected(n_) for n_ in names}
+
+    def dig(res):
+        h = hashlib.sha256()
+        for a in list(res[0]) + [res[1], res[2]]:
+            a = np.ascontiguousarray(a)
+            h.update(str(a.shape).encode() + str(a.dtype).encode() + a.tobytes())
+        return h.hexdigest()
+
+    wd_ = {n_: dig(want[n_]) for n_ in names}
+
+    def make_workers(wd):
+        cdir = os.path.join(wd, ".bldfm_cache")
+
+        def mk(n_):
+            def run():
+                return dig(S(cache=GreensFunctionCache(cdir), **request(n_)))
+            return run
+        return [mk(n_) for n_ in names]
+
+    def oracle(wd, trace, results):
+        msgs = []
+        cdir = os.path.join(wd, ".bldfm_cache")
+        for n_, r in zip(names, results):
+            if r is None or r[0] != "ok":
+                msgs.append("the worker solving %s %s" % (n_, "died" if r is None else r[1]))
+            elif r[1] != wd_[n_]:
+                msgs.append("the worker solving %s returned something else than the uncached solve" % n_)
+        for n_ in dict.fromkeys(names):
+            try:
+                got = S(cache=GreensFunctionCache(cdir), **request(n_))
+            except Exception as e:  # noqa
+                msgs.append("afterwards request %s through a fresh cache object raises %s: %s" % (n_, type(e).__name__, str(e)[:80]))
+                continue
+            d = _same(got, want[n_])
+            if d:
+                msgs.append("afterwards request %s through a fresh cache object: %s" % (n_, d))
+        return msgs
+
+    out = procsched.explore(make_workers, oracle, bound=case["bound"], max_executions=case.get("cap", 20000))
+    v = []
+    for sched, trace, msgs in out["violations"][:3]:
+        v.append({"sub": "concurrent-writers", "sig": "concurrent-writers/%s" % ("+".join(names)),
+                  "msg": "workers %s on one cache directory, schedule %s (operations %s): %s" % (names, "".join(str(k) for k in sched), [(k, o) for k, o, _ in trace if o not in ("start",)][:40], "; ".join(msgs[:3])),
+                  "schedule": sched})
+    if out["capped"]:
+        raise core.HarnessError("interleaving exploration hit its cap of %d executions" % case.get("cap", 20000))
+    return {"v": v, "nt": out["distinct_traces"] > 2, "n": out["executions"], "obs": {"executions": out["executions"], "distinct_interleavings": out["distinct_traces"], "steps_per_execution": out["max_steps"], "preemption_bound": case["bound"], "violating_schedules": len(out["violations"])}}
+
+
 def run(ctx):
     core.warm_numba()
     depth = 2 if ctx.tier == "quick" else 3
@@ -417,6 +500,12 @@ def run(ctx):
     res = ctx.run_cases(case_history, cases, sub="histories")
     res += ctx.run_cases(case_history, dmg, sub="histories with entries damaged on disk")
     cases = cases + dmg
+    cw = [{"requests": list(p_), "bound": 2} for p_ in (("R0", "measx"), ("measx", "measy"), ("R0", "srcshape"), ("levels-order", "levels-subset"), ("R0", "R0"), ("single-row", "R0"))]
+    if ctx.tier != "quick":
+        cw += [{"requests": ["R0", "measx", "measy"], "bound": 2, "cap": 60000}, {"requests": ["R0", "halo30"], "bound": 3, "cap": 60000}]
+    rcw = core.run_forked(ctx, case_concurrent_writers, cw, sub="concurrent writers on one cache directory (all interleavings, preemption-bounded)", nproc=8, timeout=1800)
+    ctx.cov["concurrent_writer_executions"] = int(sum(r.get("obs", {}).get("executions", 0) for r in rcw))
+    ctx.cov["concurrent_writer_distinct_interleavings"] = int(sum(r.get("obs", {}).get("distinct_interleavings", 0) for r in rcw))
     # directory-content states: set of stored requests
     states = set()
     for c in cases:
